@@ -164,3 +164,42 @@ package dispatcher
 //@   loop 0 invariant[C17] amtEntriesOK(g) && cntEntriesOK(g)
 //@   loop 1 invariant[C17] cntEntriesOK(g)
 //@   ensures[C17] err == nil
+
+// ---------------------------------------------------------------------------------------------
+// Statistics queries (C13) - the part within reach: the secondary index keys are the destination
+// protocol (and counterparty, denomination) of the entry, recovered from the textual destination
+// identifier that is the third component of the primary key; the direct lookup returns what is stored.
+// That the SDK's IndexedMap keeps the indexes in step by calling these functions on every write, and
+// that CollectionPaginate enumerates a prefix exactly once, is outside (assumed).
+// ---------------------------------------------------------------------------------------------
+
+// Index "by destination protocol" of the totals: for a primary key whose third component is the textual
+// form of a valid identifier (p, c), the index key is p.
+//@ func newDispatchedAmountsIndexes$1(pk, value) (p, err)
+//@   ensures[C13] forall p0 int, c0 string :: vcc(mk("core.CrossChainID", p0, c0)) && 1 <= p0 && p0 <= 9 && pk.k3 == idstr(p0, c0) ==> err == nil && p == p0
+
+// Index "by destination cross-chain identifier": (p, c, denomination of the entry).
+//@ func newDispatchedAmountsIndexes$2(pk, value) (t, err)
+//@   ensures[C13] forall p0 int, c0 string :: vcc(mk("core.CrossChainID", p0, c0)) && 1 <= p0 && p0 <= 9 && pk.k3 == idstr(p0, c0) ==> err == nil && t.k1 == p0 && t.k2 == c0 && t.k3 == pk.k4
+
+// Index "by destination protocol" of the counts: the third component of the primary key.
+//@ func newDispatchedCountsIndexes$1(pk, value) (p, err)
+//@   ensures[C13] err == nil && p == pk.k3
+
+// Direct lookups: the stored totals/count of exactly the key built from the two identifiers (and
+// denomination); zero when nothing is stored.
+//@ func (d *Dispatcher) GetDispatchedAmount(ctx, sourceID, destID, denom) (e)
+//@   requires[inv]  d != nil
+//@   requires[base] sourceID != nil && destID != nil && destID.ProtocolId >= 0
+//@   letold k = quad4(sourceID.ProtocolId, sourceID.CounterpartyId, idstr(destID.ProtocolId, destID.CounterpartyId), denom)
+//@   ensures[C13] e != nil && e.SourceId == sourceID && e.DestinationId == destID && e.Denom == denom
+//@   ensures[C13] amt_has[d.dispatchedAmounts][k] ==> e.AmountDispatched == amt_val[d.dispatchedAmounts][k]
+//@   ensures[C13] !amt_has[d.dispatchedAmounts][k] ==> val(e.AmountDispatched.Incoming) == 0 && val(e.AmountDispatched.Outgoing) == 0
+
+//@ func (d *Dispatcher) GetDispatchedCounts(ctx, sourceID, destID) (e)
+//@   requires[inv]  d != nil
+//@   requires[base] sourceID != nil && destID != nil
+//@   letold k = quad4(sourceID.ProtocolId, sourceID.CounterpartyId, destID.ProtocolId, destID.CounterpartyId)
+//@   ensures[C13] e != nil && e.SourceId == sourceID && e.DestinationId == destID
+//@   ensures[C13] e.Count == cntOf(d, k)
+
